@@ -610,8 +610,35 @@ class Engine(DynMixin, ExprMixin, ModelMixin, BuiltinMixin, MAMixin):
                 for s2, out in self.exec_block(node.body, s1):
                     yield s2, out
 
+        if getattr(lc, "summary", False):
+            for r in self.summarised(st, seq, body, lc, "%s/loop%d" % (fi.key, ordn)):
+                yield r
+            return
         for r in self.iterate(st, seq, body, lc, "%s/loop%d" % (fi.key, ordn)):
             yield r
+
+    def summarised(self, st, seq, body, lc, label):
+        """Loop rule for contracts whose invariant does not depend on the iteration count (`summary = True`): the body is
+        checked once from the abstract state (an arbitrary iteration; leaving by break included), escaping exceptions and
+        returns are propagated, and ONE post-state - the abstract state again - continues. The invariant must hold of the
+        pre-state as it is (it only says which locals hold unconstrained values and what the body must leave alone)."""
+        pre = st.fork()
+        j = smt.fresh("j", z3.IntSort())
+        sj = st.fork()
+        sj.assume(z3.And(j >= 0, j < seq.n))
+        sj.note_k(j)
+        lc.abstract(self, pre, sj, j, seq)
+        if self.feasible(sj):
+            sj.trail.append(label + ":iter j")
+            for s2, out2 in body(sj, seq.get(j), j):
+                if out2[0] in ("normal", "continue", "break"):
+                    lc.check(self, pre, s2, j + 1, seq, label + ":preserve")
+                else:
+                    yield s2, out2
+        post = st.fork()
+        lc.abstract(self, pre, post, seq.n, seq)
+        post.trail.append(label + ":summary")
+        yield post, ("normal", None)
 
     # ------------------------------------------------------------ loop-local names by role
     @staticmethod
@@ -694,10 +721,14 @@ class Engine(DynMixin, ExprMixin, ModelMixin, BuiltinMixin, MAMixin):
             s0.note_k(z3.IntVal(1))
             # --- peeled first iteration: establishes Inv(1) on every normally ending path
             rep = None
+            s0.ghost["iter_log_base"] = len(s0.log)
             for s1, out in body(s0, seq.get(z3.IntVal(0)), z3.IntVal(0)):
                 if out[0] not in ("normal", "continue"):
                     if out[0] == "break":
-                        raise Unsupported("break in symbolic loop")
+                        # the loop is left at once with the state reached in the first iteration (no invariant is claimed for it)
+                        s1.trail.append(label + ":break@0")
+                        yield s1, ("normal", None)
+                        continue
                     yield s1, out
                     continue
                 lc.check(self, pre, s1, z3.IntVal(1), seq, label + ":establish")
@@ -737,12 +768,15 @@ class Engine(DynMixin, ExprMixin, ModelMixin, BuiltinMixin, MAMixin):
             if self.feasible(sj):
                 sj.trail.append(label + ":iter j")
                 base_len = len(sj.log)
+                sj.ghost["iter_log_base"] = base_len
                 for s2, out2 in body(sj, seq.get(j), j):
                     if out2[0] in ("normal", "continue"):
                         lc.check(self, pre, s2, j + 1, seq, label + ":preserve")
                         general = [("forall",) + tuple(ev) for ev in s2.log[base_len:] if ev and ev[0] == "touch"]
                     elif out2[0] == "break":
-                        raise Unsupported("break in symbolic loop")
+                        # left in an arbitrary iteration j: the state is Inv(j) plus the part of the body before the break
+                        s2.trail.append(label + ":break@j")
+                        yield s2, ("normal", None)
                     else:
                         yield s2, out2
             # --- exit with Inv(m)
